@@ -133,6 +133,10 @@ AltWords == {<<123>>, <<125>>, <<44>>, <<97>>, <<46>>, <<47>>, <<42>>, <<42, 42,
 \* the shapes the strategies are chosen from:  a . / * **/ /**
 StratWords == {<<97>>, <<46>>, <<47>>, <<42>>, <<42, 42, 47>>, <<47, 42, 42>>}
 StratWordsB == StratWords \cup {<<98>>}
+\* the same shapes over letters of both cases, for case-insensitive globs (no literal shortcut may be taken for them)
+StratWordsCI == {<<97>>, <<65>>, <<46>>, <<47>>, <<42, 42, 47>>, <<42>>}
+OptsCI == {[ci |-> TRUE, ls |-> l, be |-> TRUE, ea |-> FALSE] : l \in BOOLEAN}
+CIAlphaDef == <<97, 65, 46, 47>>                                 \* a A . /
 
 OptsBasic == {[ci |-> c, ls |-> l, be |-> TRUE, ea |-> FALSE] : c \in BOOLEAN, l \in BOOLEAN}
 OptsCS == {[ci |-> FALSE, ls |-> l, be |-> TRUE, ea |-> FALSE] : l \in BOOLEAN}
